@@ -1,5 +1,6 @@
 #!/bin/sh
-# Offline setup: warm the Go build cache for the harness modules (files on disk only).
+# Offline setup: warm the Go build cache for the harness modules (files on disk only),
+# including the race-detector builds used by C09 and C16.
 set -e
 cd "$(dirname "$0")"
 export GOFLAGS=-mod=mod GOPROXY=off GOTOOLCHAIN=auto
@@ -7,5 +8,6 @@ export GOFLAGS=-mod=mod GOPROXY=off GOTOOLCHAIN=auto
 for m in harness harness-web; do
   [ -d "$m" ] || continue
   (cd "$m" && go test -c -tags verif -vet=off -o /dev/null ./props) || exit 1
+  (cd "$m" && go test -c -race -tags verif -vet=off -o /dev/null ./props) || exit 1
 done
 echo setup ok
